@@ -123,7 +123,7 @@ class WatermarkPoolSink(PoolSink):
       return sink
     else:
       if len(self._waiters) + 1 > self._max_queue_size:
-        return FailingMessageSink(MaxWaitersError())
+        return FailingMessageSink(MaxWaitersError)
       else:
         self._varz.queue_size(len(self._waiters) + 1)
         return QueuingMessageSink(self._waiters)
